@@ -233,7 +233,9 @@ func init() {
 					// the first part was run by an older version of the library, whose
 					// records had no OutFiles field: such records are loaded as they are
 					// and end up in the lineage; the converters must cope
-					for pth, e := range WorkFiles(inc1.Sim.FS.Root) {
+					wf9 := WorkFiles(inc1.Sim.FS.Root)
+					for _, pth := range sortedKeys(wf9) {
+						e := wf9[pth]
 						if e.Kind != simrt.KFile || !strings.HasSuffix(pth, ".audit.json") {
 							continue
 						}
